@@ -7,7 +7,7 @@ Predicate on the implementation: plant 1-5 invalid expressions at random node ki
 """
 from __future__ import annotations
 
-from .. import evalenv, extract, valgen as V
+from .. import evalenv, extract, trees as T, valgen as V
 from ..common import Ctx
 from . import _valcommon as VC
 
@@ -43,9 +43,17 @@ def run(ctx: Ctx) -> None:
         chosen = rng.sample(slots, min(len(slots), rng.randint(1, 5)))
         invalid_discs, invalid_entries = set(), 0
         for kind, node in chosen:
-            node["expr"] = {"parts": [["MUSS", rng.choice(["Muss", "M", "X", "Soll"]), rng.choice(V.INVALID_CONDS + ["([2] U [3]) O [501]", "[501] X ([2] O [3])"])]], "invalid": True}
-            if node["expr"]["parts"][0][1] == "X":
-                node["expr"]["parts"][0][0] = "X"
+            bad_cond = rng.choice(V.INVALID_CONDS + ["([2] U [3]) O [501]", "[501] X ([2] O [3])"])
+            if rng.random() < 0.4:
+                # the invalid condition sits in a later (or earlier) modal-mark part of a multi-part expression
+                ok_parts = [[k, rng.choice(V.MODAL[k]), T.render(rng.choice(g.pool), T.Style(rng, "min", "upper", "one")).strip()] for k in rng.choices(["MUSS", "KANN", "SOLL"], k=rng.randint(1, 2))]
+                bad_part = [rng.choice(["MUSS", "KANN"]), "Muss", bad_cond]
+                bad_part[1] = V.MODAL[bad_part[0]][0]
+                pos = rng.randint(0, len(ok_parts))
+                node["expr"] = {"parts": ok_parts[:pos] + [bad_part] + ok_parts[pos:], "invalid": True}
+            else:
+                w = rng.choice(["Muss", "M", "X", "Soll"])
+                node["expr"] = {"parts": [["X" if w == "X" else "MUSS", w, bad_cond]], "invalid": True}
             if kind == "entry":
                 invalid_entries += 1
             else:
